@@ -7,6 +7,7 @@ CONSTANTS
   Bases = {"same", "fresh"}
   Fmts = {4, 12}
   AllVars = FALSE
+  FewAnchors = FALSE
 INIT Init
 NEXT Next
 INVARIANT GenOK
